@@ -169,16 +169,33 @@ approximate_partition_aux(const PPL::Congruence& c,
   const Coefficient& c_inhomogeneous_term = c.inhomogeneous_term();
   Linear_Expression le(c.expression());
   le -= c_inhomogeneous_term;
+  // The partition below is made of the residue classes of the integer
+  // values of the expression: scale the congruence so that the expression
+  // only takes integer values on the grid.
+  PPL_DIRTY_TEMP_COEFFICIENT(freq_n);
+  PPL_DIRTY_TEMP_COEFFICIENT(freq_d);
+  PPL_DIRTY_TEMP_COEFFICIENT(val_n);
+  PPL_DIRTY_TEMP_COEFFICIENT(val_d);
+  if (!gr_copy.frequency(le, freq_n, freq_d, val_n, val_d)) {
+    r.add_disjunct(gr_copy);
+    return false;
+  }
+  PPL_DIRTY_TEMP_COEFFICIENT(scale);
+  lcm_assign(scale, freq_d, val_d);
+  le *= scale;
+  PPL_DIRTY_TEMP_COEFFICIENT(modulus);
+  modulus = c_modulus * scale;
   PPL_DIRTY_TEMP_COEFFICIENT(n);
-  rem_assign(n, c_inhomogeneous_term, c_modulus);
+  n = c_inhomogeneous_term * scale;
+  rem_assign(n, n, modulus);
   if (n < 0) {
-    n += c_modulus;
+    n += modulus;
   }
   PPL_DIRTY_TEMP_COEFFICIENT(i);
-  for (i = c_modulus; i-- > 0; ) {
+  for (i = modulus; i-- > 0; ) {
     if (i != n) {
       Grid gr_tmp(gr_copy);
-      gr_tmp.add_congruence((le+i %= 0) / c_modulus);
+      gr_tmp.add_congruence((le+i %= 0) / modulus);
       if (!gr_tmp.is_empty()) {
         r.add_disjunct(gr_tmp);
       }
